@@ -337,7 +337,7 @@ fn history(kind: usize, m: usize, seed: u64, len: usize) -> HistOut {
 
 pub fn run(rep: &mut Report) {
     quiet_panics();
-    rep.rule = "random operation histories over {sketch(d), sketch_slice(ds incl. empty), end_sketch, reinit} (length <= 40, m in 1..512, both algorithms, f32/f64) run on the real sketcher and on a twin that replaces every slice call by item-wise calls + end_sketch; raw state (hook) snapshotted before/after every finishing step: populated bins untouched, every other bin = pair of a bin populated before, nb_empty == #unpopulated, hashes are hashes of streamed items, slice == item-wise + finish, end_sketch idempotent; termination decided on logical steps by the densify progress hook (zero populated bins: futile, violation after 64m+1000 steps; populated bins: 400+40m consecutive search steps (OptDens) or 100 consecutive passes (RevOptDens) without a newly filled bin have probability < e^-40 under the specified keyed sequences and are reported as non-termination); across all finished sketches u64->u32 and u64->float must be functions. Distinct = (kind, m, seed) histories; non-trivial when a finishing step was observed".into();
+    rep.rule = "random operation histories over {sketch(d), sketch_slice(ds incl. empty), end_sketch, reinit} (length <= 40, m in 1..512, both algorithms, f32/f64) run on the real sketcher and on a twin that replaces every slice call by item-wise calls + end_sketch; raw state (hook) snapshotted before/after every finishing step: populated bins untouched, every other bin = pair of a bin populated before, nb_empty == #unpopulated, hashes are hashes of streamed items, slice == item-wise + finish, end_sketch idempotent; termination decided on logical steps by the densify progress hook (zero populated bins: futile, violation after 64m+1000 steps; populated bins: 400+40m consecutive search steps (OptDens) or 100 consecutive passes (RevOptDens) without a newly filled bin have probability < e^-40 under the specified keyed sequences and are reported as non-termination); tie leg: f32 sketchers with m in {1,2} and >= 4e5 items (exact ties of the minimum value occur in a few percent of the streams): one slice call against item-wise calls + end_sketch, bit for bit; across all finished sketches u64->u32 and u64->float must be functions. Distinct = (kind, m, seed) histories; non-trivial when a finishing step was observed".into();
     let nh: u64 = rep.tier.pick(40_000, 1_500_000);
     let seed = subseed(rep.seed, "C09", &[]);
     let only = rep.only_cell.clone();
@@ -399,6 +399,45 @@ pub fn run(rep: &mut Report) {
                 }
             }
             Err(p) => rep.violation("C09/panic", &cell, format!("{} m={}: unexpected panic outside a finishing call: {}", KNAMES[kind], m, p), json!({"history": i})),
+        }
+    }
+    // ---- exact ties of the f32 minimum: very many items per bin, one slice call against item-wise calls + end_sketch
+    let nties: u64 = rep.tier.pick(160, 3000);
+    let nitems: usize = rep.tier.pick(400_000, 600_000);
+    let tie_res: Vec<(u64, Result<Option<String>, String>)> = (0..nties)
+        .into_par_iter()
+        .filter(|i| only.as_ref().map(|c| c == &format!("tie{}", i) || c == "ties").unwrap_or(true))
+        .map(|i| {
+            (i, catch(move || {
+                let mut rng = rng_from(mix(&[seed, i, 0x71e]));
+                let kind = if i % 2 == 0 { 0 } else { 2 };
+                let m = [1usize, 1, 2][(i % 3) as usize];
+                let ids = fresh_ids(&mut rng, nitems, 0);
+                let mut a = make(kind, m);
+                a.sketch_slice(&ids).map_err(|e| format!("sketch_slice failed: {}", e)).unwrap();
+                let mut b = make(kind, m);
+                for d in &ids {
+                    b.sketch(*d);
+                }
+                b.end_sketch();
+                let (ra, rb) = (a.raw(), b.raw());
+                if ra.0 != rb.0 || ra.1 != rb.1 {
+                    let p = (0..m).find(|&p| ra.0[p] != rb.0[p] || ra.1[p] != rb.1[p]).unwrap_or(0);
+                    Some(format!("{} m={} n={}: one slice call and item-wise calls + end_sketch differ at position {}: value bits {:#x} vs {:#x}, hash {:#x} vs {:#x}", KNAMES[kind], m, nitems, p, ra.0[p], rb.0[p], ra.1[p], rb.1[p]))
+                } else {
+                    None
+                }
+            }))
+        })
+        .collect();
+    for (i, r) in tie_res {
+        rep.evaluations += 2;
+        rep.count("tie_streams", 1);
+        rep.distinct.insert(mix(&[i, 0x71e]));
+        match r {
+            Ok(Some(w)) => rep.violation("C09/slice-vs-itemwise", &format!("tie{}", i), w, json!({"tie_stream": i, "items": nitems})),
+            Ok(None) => {}
+            Err(p) => rep.violation("C09/panic", &format!("tie{}", i), format!("panic: {}", p), json!({"tie_stream": i})),
         }
     }
     rep.count("densify_search_steps_observed", total_steps);
